@@ -2,6 +2,7 @@
 from .. import common as C, structs as S, valgen as V
 
 LEAN_MODULES = ["ZvtVerif.Properties.C03"]
+TRANSLATED = {"structs"}      # translated tables this property consumes (a translator problem elsewhere does not break its tie)
 ASSUMPTIONS = ["spec/layout.json and Spec/Layout.lean are the frozen, hand-reviewed specification table (DESIGN.md §5.4)",
                "canonical value domain of DESIGN.md §5.1"]
 
